@@ -6,6 +6,9 @@ Not decided: that the capacity arithmetic yields the right day (numeric).
 Round 4: the prerequisite collection is read through sched.PassShape.owners_of / collection_sources (own + ancestors in one
 comprehension or one loop over `[task] + all_parents`, extend(), lambda-parameterised helpers left by inlining); operands the
 Expander cannot resolve give UNDECIDED, REFUTED is kept for operands that were resolved and are wrong or missing.
+Round 11: calc / __prepare_tasks may write nothing but None to a task start before the pass (a seeded start is read as fixed by
+the user); a recursion over the prerequisites that skips children of the task's own parent is refuted (sched_dep); a summary end
+taken from the child with the latest end DAY is accepted here (this property is day-granular; the time of day is C07's).
 """
 from __future__ import annotations
 
@@ -62,7 +65,7 @@ def check(ctx):
 
     def summary_end(o):
         from .c07 import rollup
-        rollup(ctx, o, ps, attrs=('end',))
+        rollup(ctx, _DayGranular(o, ps), ps, attrs=('end',))
     ctx.guarded(o, summary_end)
 
     o = ctx.ob('summary_end_is_derived_not_recorded', 'R5',
@@ -73,6 +76,11 @@ def check(ctx):
         from .c07 import cleared
         cleared(ctx, o, S, fields=('start', 'end'))
     ctx.guarded(o, cleared_)
+
+    o = ctx.ob('no_start_recorded_before_the_pass', 'R8',
+               "calc and its preparation step write nothing but None to the start of a task before the pass: a start computed there "
+               "is taken by the pass for one fixed by the user and is no longer bounded by prerequisites, project start and calendar", floor=1)
+    ctx.guarded(o, lambda o: no_seeded_start(ctx, o, S))
 
     o = ctx.ob('search_never_moves_back', 'R8',
                "the availability search starts at the resource's nearest availability on/after the requested date and steps "
@@ -126,6 +134,67 @@ class _Only:
             self._o.site(func, node, "clone clause outside this property's scope (reported by C10 / C06)")
             return
         self._o.refute(func, node, construct, msg)
+
+
+class _DayGranular:
+    """view of the roll-up obligation for this property, which speaks of calendar days only: a summary end taken from the child with
+    the latest end DAY (`max(<all dated children>, key=lambda t: t.end.date()).end`) lies on the day of max(children ends) - the
+    time of day it may lose is C07's matter, not a start on an earlier day"""
+
+    def __init__(self, o, ps):
+        self._o, self._ps = o, ps
+
+    def __getattr__(self, name):
+        return getattr(self._o, name)
+
+    def refute(self, func, node, construct, msg):
+        ps = self._ps
+        st = construct if isinstance(construct, ast.Assign) else node
+        if func is ps.f and isinstance(st, ast.Assign) and len(st.targets) == 1 and match(f"{ps.task}.end", st.targets[0]):
+            m = match("max($seq, key=$k).end", st.value)
+            k = m['k'] if m else None
+            if m and isinstance(k, ast.Lambda) and len(k.args.args) == 1 and match(f"{k.args.args[0].arg}.end.date()", k.body):
+                cn = ps.cfg.node_of(st)
+                seq = m['seq']
+                if isinstance(seq, ast.Name) and cn is not None:
+                    d = ps.fl.unique_def(seq.id, cn)
+                    if d is not None and d.kind == 'assign' and d.value is not None and not ps._mutated_in_place(seq.id):
+                        seq = d.value
+                parts = facts.comp_parts(seq)
+                if parts and isinstance(parts[1], ast.Name) and isinstance(parts[0], ast.Name) and parts[0].id == parts[1].id and \
+                        match(f"{ps.task}.children", sched.strip_seq_copy(ps.ex.expand(parts[2], cn) if cn is not None else parts[2])) and \
+                        all(match(f"{parts[1].id}.end is not None", c) for c in parts[3]):
+                    self._o.site(func, node, "summary end = end of the child with the latest end day: the day of max(children ends)")
+                    return
+        self._o.refute(func, node, construct, msg)
+
+
+def no_seeded_start(ctx, o, S):
+    prog = ctx.prog
+    calc = prog.func(S['calc'])
+    prep = prog.funcs.get(S['prepare'])
+    for f in [calc] + ([prep] if prep is not None else []):
+        sts = facts.attr_stores(f, 'start')
+        if not sts:
+            o.site(f, f.node, f"{f.name} writes no task start")
+            continue
+        ex = Expander(prog, f, ctx.typer)
+        cfg = flow_of(f).cfg
+        for st, tgt, val in sts:
+            cn = cfg.node_of(st)
+            v = ex.expand(val, cn) if (val is not None and cn is not None and not isinstance(st, ast.AugAssign)) else val
+            if isinstance(v, ast.Constant) and v.value is None and not isinstance(st, ast.AugAssign):
+                o.site(f, st, f"{src(tgt)} = None")
+            elif v is not None and same(v, tgt) and not isinstance(st, ast.AugAssign):
+                o.site(f, st, f"{src(tgt)} keeps its value")
+            elif v is not None and any(sched_dep._is_now(x) or (isinstance(x, ast.Attribute) and x.attr in ('min_start', 'end')) or
+                                       (isinstance(x, ast.Call) and isinstance(x.func, ast.Name) and x.func.id in ('max', 'min', 'datetime'))
+                                       for x in ast.walk(v)):
+                o.refute(f, st, st, f"`{src(st)[:80]}` records a computed start on a task before the pass runs: the pass treats a start that is "
+                                    f"not None as fixed by the user, so the prerequisites of the task and of its ancestors, the project start "
+                                    f"and the resource calendar no longer bound it")
+            else:
+                o.undecided(f, st, st, f"`{src(st)[:80]}` writes a task start before the pass; the rule cannot tell whether the value is None")
 
 
 def fill_start(ctx, o, ps: PassShape):
